@@ -254,13 +254,14 @@ class ResourceMap:
         # Handle.
         # More extensive checks are done through assertions in debug
         # mode.
-        dest_map = target_map.handles
-        other_map = target_map.maps
         if isinstance(value, ResourceMap):
-            dest_map, other_map = other_map, dest_map
-
-        other_map.pop(last_key, None)         # Delete duplicates
-        dest_map[last_key] = value
+            # Delete duplicates (in all layers)
+            for layer in target_map.handles.maps:
+                layer.pop(last_key, None)
+            target_map.maps[last_key] = value
+        else:
+            target_map.maps.pop(last_key, None)     # Delete duplicates
+            target_map.handles[last_key] = value
 
         # Set added value's key in its immediate parent (last_key)
         # and the parent itself
@@ -280,10 +281,11 @@ class ResourceMap:
         supermap).
         """
         # Before scrapping everything, update their parent information
-        for handle in self.handles.values():
-            if handle.parent == self:
-                handle.parent = None
-                handle.key = None
+        for layer in self.handles.maps:
+            for handle in layer.values():
+                if handle.parent == self:
+                    handle.parent = None
+                    handle.key = None
 
         for map_ in self.maps.values():
             if map_.parent == self:
@@ -291,7 +293,11 @@ class ResourceMap:
                 map_.key = None
 
         self.maps.clear()
-        self.handles.clear()
+        # Scrap shadowed handles too (ChainMap.clear only clears the
+        # first layer)
+        for layer in self.handles.maps:
+            layer.clear()
+        del self.handles.maps[1:]
 
     def get_static_map(self) -> StaticResourceMap:
         """Generate a static map for convenience resource access.
